@@ -232,11 +232,11 @@ pub struct CrashStats {
 
 /// Runs the crash-image campaign and reports the violations that belong to `prop`.
 /// returns (evaluations, distinct non-trivial)
-pub fn run_part(run: &mut Run, a: &Args, prop: &str) -> (u64, u64) {
+pub fn run_part(run: &mut Run, a: &Args, prop: &str) -> (u64, u64, Vec<J>) {
     run_part_with(run, a, prop, VlogMode::Any)
 }
 
-pub fn run_part_with(run: &mut Run, a: &Args, prop: &str, vlog: VlogMode) -> (u64, u64) {
+pub fn run_part_with(run: &mut Run, a: &Args, prop: &str, vlog: VlogMode) -> (u64, u64, Vec<J>) {
     run_scenarios(run, prop);
     let scratch = crate::e1::scratch_root().join(format!("e2-{}", prop));
     let _ = std::fs::create_dir_all(&scratch);
@@ -310,7 +310,7 @@ pub fn run_part_with(run: &mut Run, a: &Args, prop: &str, vlog: VlogMode) -> (u6
             if !res["open_ok"].as_bool().unwrap_or(true) {
                 st.open_failures += 1;
             }
-            if st.samples.len() < 4 && res["nontrivial"].as_bool().unwrap_or(false) && idx % 97 == 3 {
+            if st.samples.len() < 4 && res["nontrivial"].as_bool().unwrap_or(false) && (idx % 97 == 3 || st.samples.is_empty()) {
                 st.samples.push(json!({"trace": ti, "options": cfg.to_json(), "workload": w.to_json(), "crash_after_trace_record": plan.upto,
                     "record": rec_short(&t.recs[plan.upto]), "loss": e2::loss_json(&plan.loss), "required_prefix": res["required"], "recovered_prefix": res["prefix"]}));
             }
@@ -352,10 +352,10 @@ pub fn run_part_with(run: &mut Run, a: &Args, prop: &str, vlog: VlogMode) -> (u6
             "traces": st.traces, "trace_records": st.trace_ops, "commits_traced": st.commits, "concurrent_committer_traces": st.concurrent_traces,
             "images_opened": st.images, "images_with_acknowledged_commits": st.nontrivial, "images_by_loss_model": st.by_loss,
             "probe_commit_checks": st.probes, "open_failures": st.open_failures, "distinct_signatures": st.sigs.len(),
-            "samples": st.samples,
+            "samples": st.samples.clone(),
         }),
     );
-    (st.images, st.sigs.len() as u64)
+    (st.images, st.sigs.len() as u64, st.samples)
 }
 
 pub fn rec_short(r: &crate::trace::Rec) -> String {
